@@ -103,10 +103,23 @@ class Oracle:
         n = int(hi - lo)
         return int(lo) + self._answer("randint", n, [1.0 / n] * n)
 
-    def choice(self, options):
-        options = np.asarray(options)
+    def choice(self, options, size=None, replace=True, p=None):
+        """np.random.choice: one seam per drawn element (with replacement; without replacement the weights are renormalised over what is left)"""
+        options = np.arange(options) if isinstance(options, (int, np.integer)) else np.asarray(options)
         n = len(options)
-        return options[self._answer("choice_u", n, [1.0 / n] * n)]
+        w = [1.0 / n] * n if p is None else [float(x) for x in p]
+        if size is None:
+            return options[self._answer("choice_u" if p is None else "choice_w", n, w)]
+        k = int(np.prod(size))
+        out, left = [], list(range(n))
+        for _ in range(k):
+            ww = [w[i] for i in left]
+            tot = sum(ww)
+            a = self._answer("choice_u" if p is None else "choice_w", len(left), [x / tot for x in ww])
+            out.append(options[left[a]])
+            if not replace:
+                left.pop(a)
+        return np.array(out).reshape(size)
 
     def _perms(self, n):
         if self.perm_mode == "all" and n <= 6:
